@@ -64,7 +64,8 @@ def _table(kind, n, seed):
     if kind == "q":
         return vals * u.m
     if kind == "time":
-        return Time("2020-01-01T00:00:00") + np.abs(vals) * 64 * u.s
+        # instants in the UTC, TAI or TT scale: they are compared as instants (difference to one UTC epoch)
+        return Time("2020-01-01T00:00:00", scale=["utc", "tai", "tt"][seed % 3]) + np.abs(vals) * 64 * u.s
     # components stored in degrees, hour angles, radians or arcminutes: the result must not depend on it
     lon_u, lat_u = [(u.deg, u.deg), (u.hourangle, u.deg), (u.rad, u.rad), (u.arcmin, u.arcmin)][seed % 4]
     lon = (np.abs(vals) / 8 * u.deg).to(lon_u)
